@@ -216,17 +216,28 @@ def deletedFiles (U : List Path) (req : Path → Bool) (depth : Nat) (t : Tree) 
 
 /-! ### observation -/
 
-/-- paths reached by `fs.WalkDir(".")`: `ReadDir` lists valued, non-whiteout children; only directories are entered -/
+/-- `c` is a direct child of `d` -/
+def isChild (d c : Path) : Bool := c.length = d.length + 1 && c.take d.length == d
+
+/-- `FS.ReadDir(d)`: the valued children of `d` in the trie (`GetChildren`), whiteout nodes left out -/
+def shown : Option Node → Bool
+  | some n => !n.wh
+  | none => false
+
+def readDir (U : List Path) (t : Tree) (d : Path) : List Path :=
+  (U.filter fun c => isChild d c).filter fun c => shown (t.get c)
+
+/-- paths reached by `fs.WalkDir(".")`: every listed child is reported, only directories are entered -/
 def walk (U : List Path) (t : Tree) : Nat → Path → List Path
   | 0, _ => []
   | f+1, d =>
-    (kidsOf U t d).flatMap fun c =>
-      match t c with
+    (U.filter fun c => isChild d c).flatMap fun c =>
+      match t.get c with
       | some n => if n.wh then [] else c :: (if n.kind = .dir then walk U t f c else [])
       | none => []
 
 def walkAll (U : List Path) (t : Tree) : List Path :=
-  match t [] with
+  match t.get [] with
   | some n => if n.kind = .dir && !n.wh then walk U t (U.foldl (fun m q => max m q.length) 0 + 2) [] else []
   | none => []
 
